@@ -182,6 +182,16 @@ theorem applyChanges_sorted (cs : List Change) : ∀ (vs vs' : ValSet), Sorted v
       rw [hc] at h
       exact ih v1 vs' (applyChange_sorted vs v1 c hs hc) (by simpa using h)
 
+/-- C14.6 the ORDER of a block's accepted changes is part of the input: two accepted requests for
+    the same node applied in the other order give another validator set (the later one wins), so a
+    replica that applied a block's changes in any other order than the order of acceptance - e.g. in
+    the iteration order of a map - would end up with another set. (With C14.5: the set is a function
+    of the ORDERED changes, and of nothing less.) -/
+theorem change_order_matters :
+    (applyChanges ⟨w4, none, 0⟩ [⟨.update, [1], 5⟩, ⟨.update, [1], 7⟩]).map (fun vs => powerOf vs.vals [1]) = some (some 7) ∧
+    (applyChanges ⟨w4, none, 0⟩ [⟨.update, [1], 7⟩, ⟨.update, [1], 5⟩]).map (fun vs => powerOf vs.vals [1]) = some (some 5) := by
+  decide
+
 /-! ### non-vacuity -/
 example : NodupAddr w4 := by simp [NodupAddr, w4]
 example : checkMajor23 Admin.repaired w4 [⟨[1], true⟩, ⟨[9], true⟩, ⟨[2], false⟩, ⟨[3], true⟩, ⟨[4], true⟩] = true := by
